@@ -154,7 +154,7 @@ Definition slice (b : bytes) (start len : Z) : bytes := ztake len (zdrop start b
 (* one complete handshake message: type byte, 24-bit length, body *)
 Definition msg_type (m : bytes) : Z := match m with t :: _ => t | [] => -1 end.
 Definition be24 (m : bytes) : Z :=
-  match m with _ :: a :: b :: c :: _ => a * 65536 + b * 256 + c | _ => -1 end.
+  match m with _ :: a :: b :: c :: _ => a * 65536 + b * 256 + c | _ => -5 end.
 Definition framedb (m : bytes) : bool := Zlen m =? 4 + be24 m.
 
 (* ---------- KeySchedule -------------------------------------------------------------------------------- *)
